@@ -55,8 +55,14 @@ def initial_data(tname):
     return NoDataType()
 
 
+_KEEPALIVE: list = []
+LIVE_IDS: list = []          # per node of the last run: key -> id of the live value object after the node
+
+
 def run_with_snapshots(nodes, ctx0):
     """Real run recording the context after every node. Returns (result, snapshots)."""
+    del _KEEPALIVE[:]
+    del LIVE_IDS[:]
     pipegen.setup()
     from semantiva.pipeline import Pipeline, Payload
     from semantiva.context_processors import ContextType
@@ -72,7 +78,10 @@ def run_with_snapshots(nodes, ctx0):
         def _submit_and_wait(self, node_callable, *, ser_hooks):
             self.started += 1
             out = super()._submit_and_wait(node_callable, ser_hooks=ser_hooks)
-            snaps.append(copy.deepcopy(out.context.to_dict()))
+            live = out.context.to_dict()
+            snaps.append(copy.deepcopy(live))
+            _KEEPALIVE.extend(live.values())          # ids below stay unique: no object seen here is freed during the run
+            LIVE_IDS.append({k: id(v) for k, v in live.items()})
             return out
 
     orch = Rec()
@@ -121,6 +130,8 @@ def check_accepted(rep, stats, rnd, nodes, insp, pub, given=None):
         # ---- per-node facts (exact required keys) ----------------------------------------------
         before = dict(ctx0)
         writers = {k: None for k in ctx0}       # key -> node (1-based) that last changed its value
+        live_ids = list(LIVE_IDS)
+        ids_before = {}
         for idx, after in enumerate(snaps):
             ni = insp.nodes[idx]
             stats["facts_nodes_checked"] += 1
@@ -145,7 +156,9 @@ def check_accepted(rep, stats, rnd, nodes, insp, pub, given=None):
                 if p in cfg or p not in before:
                     continue
                 stats["origins_checked"] += 1
-                if origin != writers.get(p) and not same_value_since(ctx0, snaps, p, origin, idx):
+                # an equal value may have been written again by the reported node (not observable for scalars); a container a
+                # node writes is a fresh object, so for containers the last writer is known exactly
+                if origin != writers.get(p) and (isinstance(before.get(p), (list, dict)) or not same_value_since(ctx0, snaps, p, origin, idx)):
                     rep.add_violation(f"origin-untrue:context:{'initial' if origin is None else 'node'}",
                                       f"node {idx + 1} parameter {p!r}: reported origin {origin}, the value actually comes from "
                                       f"{'the initial context' if writers.get(p) is None else 'node ' + str(writers.get(p))}",
@@ -159,9 +172,12 @@ def check_accepted(rep, stats, rnd, nodes, insp, pub, given=None):
                                       f"node {idx + 1} parameter {p!r} is reported to take its default {dv!r}, but the context holds {p!r} "
                                       f"(written by {'the initial context' if writers.get(p) is None else 'node ' + str(writers.get(p))}) and overrides it",
                                       dict(pub, initial_context=ctx0, node=idx + 1, parameter=p))
+            ids_after = live_ids[idx] if idx < len(live_ids) else {}
             for k in after:
-                if k not in before or before[k] != after[k]:
+                # written here: the key is new, its value changed, or the live value is another object than before
+                if k not in before or before[k] != after[k] or (k in ids_before and k in ids_after and ids_before[k] != ids_after[k]):
                     writers[k] = idx + 1
+            ids_before = ids_after
             for k in vanished:
                 writers.pop(k, None)
             before = after
@@ -213,6 +229,28 @@ def swept_pipelines(rep, stats, rnd, n):
                     nodes += [node]
             else:
                 nodes += [node]
+        if rnd.random() < 0.25:
+            # two sweeps over a shared variable name, then a consumer of `<var>_values`: the key is created twice, the second
+            # sweep is its reported (and actual) producer
+            for _try in range(40):
+                n1, _m1, g1, i1 = c03.gen_sweep(rnd)
+                n2, _m2, g2, i2 = c03.gen_sweep(rnd)
+                shared = sorted(set(n1["derive"]["parameter_sweep"]["variables"]) & set(n2["derive"]["parameter_sweep"]["variables"]))
+                if shared and i2["kind"] != "source":
+                    break
+            else:
+                shared = []
+            if shared:
+                nodes = ([] if i1["kind"] == "source" else [{"processor": "TSourceDef"}]) + [n1]
+                if i1["kind"] != "probe":
+                    nodes.append({"processor": "TMerge"})
+                if i2["kind"] == "probe" and i1["kind"] == "probe":
+                    n2 = dict(n2, context_key="res2")
+                nodes.append(n2)
+                v = rnd.choice(shared)
+                nodes.append(rnd.choice([{"processor": f"rename:{v}_values:axis"}, {"processor": f'template:"{{{v}_values}}":axis'}]))
+                gctx = dict(g2, **g1)
+                st["shared_variable"] = st.get("shared_variable", 0) + 1
         st["cases"] += 1
         try:
             accepted, insp, msg = real_inspect(nodes)
